@@ -336,8 +336,9 @@ func (p *Parser) parseSpecs(specs []srcInput, listener *TreeShapeListener) (*sys
 			return nil, err
 		}
 
-		walker := antlr.NewParseTreeWalker()
-		walker.Walk(listener, tree)
+		if err := walkTree(src.filename, listener, tree); err != nil {
+			return nil, err
+		}
 	}
 
 	listener.lintAppDefs()
@@ -509,10 +510,25 @@ func parseImports(parent importDef, src sourceCtxHelper, input string) ([]import
 		return nil, err
 	}
 
-	walker := antlr.NewParseTreeWalker()
-	walker.Walk(listener, tree)
+	if err := walkTree(parent.filename, listener, tree); err != nil {
+		return nil, err
+	}
 
 	return listener.imports, nil
+}
+
+// walkTree builds the model from a parse tree. The listener panics on syntactically
+// valid input that it cannot handle (a size on a type that takes none, digits that
+// overflow, a malformed %-escape in free text, ...); like parseString does for the
+// ANTLR stage, report that as a parse error of the file instead of crashing.
+func walkTree(filename string, listener *TreeShapeListener, tree antlr.Tree) (err error) {
+	defer func() {
+		if r := recover(); r != nil {
+			err = syslutil.Exitf(ParseError, fmt.Sprintf("%s: %v\n", filename, r))
+		}
+	}()
+	antlr.NewParseTreeWalker().Walk(listener, tree)
+	return nil
 }
 
 // apply attributes from src to dst statement and all of its
